@@ -35,7 +35,20 @@ RUNTIME = [
     ("get(d, k)", "no failure: get on a missing key"),
     ("del d[k]", "no failure: del of a missing key"),
     ("del l[i]", "not listed: del of an out-of-range index"),
+    # failures inside lambdas driven by higher-order builtins surface like any other
+    ("sorted(l, v => u)", "undefined variable in a sort key"),
+    ("l | sorted(v => d['zz'])", "missing key in a sort key"),
+    ("sorted(d, (p, q) => u)", "undefined variable in a dict sort key"),
+    ("sorted(l, v => l[9])", "missing index in a sort key"),
+    ("sorted(l, v => nosuch(v), True)", "undefined function in a sort key"),
+    ("l | map(v => u)", "undefined variable in map"),
+    ("l | filter(v => e.pop())", "pop from empty in filter"),
+    ("l | reduce((p, q) => u)", "undefined variable in reduce"),
+    ("d | map((p, q) => d[q])", "missing key in map over a dict"),
+    ("[l | sorted(v => u), 1][1]", "undefined variable in a sort key, result discarded"),
 ]
+MUST_FAIL = {"u", "u + 1", "u(1)", "1 | u", "x.u(2)", "u += 1", "u -= 1", "u *= 1", "u /= 1", "f = v => u\nf(1)", "e.pop()", "pop(e, i)",
+             "full.push(1)", "full[0] = 1", "insert(full, i, 1)"} | {t for t, k in RUNTIME[25:]}
 if isinstance(hlib.PARAM, dict) and "t" in hlib.PARAM:
     prewarm(RUNTIME[hlib.PARAM["t"]][0])
 
@@ -52,6 +65,8 @@ def runtime_failure(k: str, i: int, n: int) -> None:
     out = run_eval(text, names, 50 if 'budget' not in kind else n)
     if out[0] == 'err' and not kind.startswith('not listed'):
         assert issubclass(out[1], ParserError), "language-level failure (%s) escaped as %s" % (kind, out[1].__name__)
+    if text in MUST_FAIL:
+        assert out[0] == 'err', "language-level failure (%s) was swallowed: %r returned %r" % (kind, text, out[1])
     hlib.done()
 
 
